@@ -40,6 +40,21 @@ def fill(claim, na):
           "perpendicular primitive reaches numpy.cross on 2-vectors (rejected by the installed numpy).",
           "Real-number reading; points are (x, y) rows; degenerate denominators not decided.",
           "DESIGN.md 3/C17")
-    for pid in ["C01", "C02", "C04", "C05", "C06", "C07", "C08", "C09", "C10", "C12", "C13", "C14", "C15",
-                "C18", "C19"]:
+    claim("C13", "proof", "gated value numbering of the filter loop bodies + normal-form equality with the IoU definition + guard partition by finite sign enumeration",
+          "For all curves, knee lists and thresholds: filter_worst_knees is exactly the running-minimum automaton (first kept, keep iff "
+          "h <= h_min with ties kept, h_min updated exactly on keep); corner filter and selector use the same IoU predicate on "
+          "points[idx-1..idx+1] with complementary comparators and the filter keeps end knees; exactly one of the two keep-guards "
+          "holds for every knee, so the outputs partition the input; every emitted value is knees[i] in ascending position order.",
+          "Real-number reading of the IoU; knees ascending valid indices; sign facts of distinct quantities treated as independent "
+          "(over-approximation, can only fail closed).",
+          "DESIGN.md 3/C13")
+    claim("C19", "proof", "gated value numbering of the matching loop (event guards, counter updates) + rational identities + decision-table comparison",
+          "For all inputs: exactly one of tp/fn is incremented per expected point and tp only when a not-yet-used nearest knee within "
+          "t is claimed (TP+FN=|E|, TP<=|K|); fp = max(|K|-tp,0) and tp+fp+fn+tn = n as an identity; accuracy/F1/MCC equal their "
+          "formulas on the matrix layout cm() returns; rmse = sqrt(mse(same args)); mae/mse/rmspe use the Euclidean argmin, the "
+          "stated error term and divisor; the three Strategy tables agree and are the stated ones.",
+          "Real-number reading; numpy reductions per kverif.npmodel; argmin returns an index of the minimum.",
+          "DESIGN.md 3/C19")
+    for pid in ["C01", "C02", "C04", "C05", "C06", "C07", "C08", "C09", "C10", "C12", "C14", "C15",
+                "C18"]:
         na(pid, PENDING)
